@@ -37,7 +37,7 @@ S0 == [q |-> "idle", req |-> <<>>, hasReq |-> FALSE, blkOpen |-> FALSE, pblk |->
 
 M0(tr) == [cfg |-> tr.cfg, s |-> << >>, hb |-> 0, maxSid |-> 0,
            maxFrameSrv |-> 16384, srvIW |-> 65535, maxConcAdv |-> -1,
-           peerIW |-> 65535, peerMFS |-> 16384,
+           peerIW |-> 65535, peerMFS |-> 16384, mfsQ |-> <<>>,
            grantC |-> 65535, sentC |-> 0, srvGrantC |-> 65535, peerSentC |-> 0,
            goaways |-> <<>>, closed |-> FALSE, connErr |-> FALSE, peerGone |-> FALSE,
            cur |-> NoFrame, hasCur |-> FALSE, curAfterClose |-> FALSE, blkBad |-> FALSE, desync |-> FALSE, pings |-> <<>>, gaPc |-> "G1", gaRead |-> 0, slPub |-> 0, multi |-> FALSE, allowed |-> {}, obs |-> NoObs,
@@ -175,7 +175,10 @@ OnSend(mm0, f0) ==
                        !.srvGrantC = @ - (IF f.ty = T_DATA THEN f.len ELSE 0),
                        !.setSent = @ + (IF f.ty = T_SETTINGS /\ ~f.ack /\ f.sid = 0 /\ f.len % 6 = 0 THEN 1 ELSE 0),
                        !.grantC = @ + (IF f.ty = T_WU /\ f.sid = 0 /\ f.len = 4 /\ ~Overflows(mm.grantC - mm.sentC, f.inc) THEN f.inc ELSE 0),
-                       !.peerMFS = IF f.ty = T_SETTINGS /\ ~f.ack /\ f.mfs >= 0 /\ f.sbad = 0 THEN f.mfs ELSE @]
+                       \* the peer's MAX_FRAME_SIZE binds the frames the server sends after its ACK; a larger one may be used at once
+                       !.peerMFS = IF f.ty = T_SETTINGS /\ ~f.ack /\ f.mfs >= 0 /\ f.sbad = 0 /\ f.mfs > @ THEN f.mfs ELSE @,
+                       !.mfsQ = IF f.ty = T_SETTINGS /\ ~f.ack /\ f.sid = 0 /\ f.len % 6 = 0
+                                THEN Append(@, IF f.sbad = 0 THEN f.mfs ELSE -1) ELSE @]
       m2 == IF f.sid # 0 THEN Put(m1, f.sid, r3) ELSE m1
       \* INITIAL_WINDOW_SIZE change: delta on every stream the server may still send on
       m3 == IF f.ty = T_SETTINGS /\ ~f.ack /\ f.iw >= 0 /\ f.sbad = 0
@@ -241,7 +244,10 @@ OnRecv(mm, f) ==
          c2 == FlagIf(c1, mm.goaways # <<>> /\ f.last > mm.goaways[Len(mm.goaways)].last, "C10:goaway-last-stream-id-increased")
      IN c2
   ELSE IF f.ty = T_SETTINGS THEN
-     IF f.ack THEN FlagIf([mm EXCEPT !.ackRecv = @ + 1], mm.ackRecv + 1 > mm.setSent, "C18:ack-without-settings")
+     IF f.ack THEN
+        LET m1 == IF mm.mfsQ = <<>> THEN mm
+                  ELSE [mm EXCEPT !.mfsQ = Tail(@), !.peerMFS = IF Head(mm.mfsQ) >= 0 THEN Head(mm.mfsQ) ELSE @]
+        IN FlagIf([m1 EXCEPT !.ackRecv = @ + 1], mm.ackRecv + 1 > mm.setSent, "C18:ack-without-settings")
      ELSE [mm EXCEPT !.maxFrameSrv = IF f.mfs >= 0 THEN f.mfs ELSE @,
                      !.srvIW = IF f.iw >= 0 THEN f.iw ELSE @,
                      !.maxConcAdv = IF f.mcs >= 0 THEN f.mcs ELSE @]
@@ -341,11 +347,12 @@ Progress(mm, e) ==
       c9b == FlagIf(c9, e.strms <= 100 /\ MaxBody(mm) < 16000000 /\ e.bodyb > e.strms * (MaxBody(mm) + 16384),
                     "C13:buffered-request-body-bytes-exceed-bound")
       c10a == FlagIf(c9b, e.rdlen > 128 \/ e.wrlen > 128, "C13:queue-exceeds-capacity")
-      \* experimental consistency clauses (prefix Z: belongs to no property; they only show up in the evidence)
+      \* the server's own books against the ledger the monitor keeps from the wire: drift is a latent violation -
+      \* a connection window the peer never granted (C06), a slot count that refuses or admits streams wrongly (C13)
       slots == {sid \in DOMAIN mm.s : sid # 0 /\ (mm.s[sid].q \in {"open", "hcr"} \/ (mm.s[sid].hs >= 1 /\ mm.s[sid].he = 0))}
       c10b == FlagIf(c10a, live /\ ~mm.multi /\ e.winc # mm.grantC - mm.sentC /\ mm.grantC - mm.sentC < 2147483647,
-                     "Z:connection-send-window-as-the-server-sees-it-differs-from-the-ledger")
-      c10 == FlagIf(c10b, live /\ e.open # Cardinality(slots), "Z:open-stream-count-differs")
+                     "C06:connection-send-window-as-the-server-sees-it-differs-from-the-ledger")
+      c10 == FlagIf(c10b, live /\ e.open # Cardinality(slots), "C13:open-stream-count-differs-from-the-streams-that-hold-a-slot")
   IN c10
 
 OnQ(mm, e) ==
